@@ -111,6 +111,8 @@ def _label_used(items, name):
 def _const_names(v):
     if isinstance(v, (ir.CRef, ir.OffC)):
         return {v.name}
+    if isinstance(v, ir.PosC):
+        return {v.name} | _const_names(v.base)
     out = set()
     for attr in ('a', 'b', 'v', 'base'):
         x = getattr(v, attr, None)
